@@ -614,7 +614,7 @@ fn is_changed_after_unmarking_chemistry(mathml: Element) -> bool {
         for child in mathml.children() {
             let child = as_element(child);
             if name(&child) == "mtd" {
-                assert_eq!(child.children().len(), 1);
+                // Note: the cell normally has one child, but it can be empty after cleaning odd input; nothing here depends on that
                 // let mtd_child = as_element(child.children()[0]);
                 // if mtd_child.attribute(CHEM_FORMULA).is_none() && mtd_child.attribute(CHEM_EQUATION).is_none() {
                 // } else {
